@@ -31,7 +31,7 @@ var c06Movements = map[string]string{
 	"vi-find-next-char": "o", "vi-find-next-char-skip": "o", "vi-find-prev-char": "o", "vi-find-prev-char-skip": "o",
 	"vi-char-search": "", "vi-set-mark": "m", "vi-goto-mark": "m",
 	"vi-yank-whole-line": "",
-	"digit-argument": "",
+	"digit-argument":     "",
 }
 
 // vi-yank-to + motion (operator + motion as two chunks)
